@@ -23,3 +23,16 @@ META = {
         "technique": "reference-relation monitor over (pre-observation, op, result, post-observation) + lock-hook re-entrancy monitor, exhaustive small state space + random histories",
     },
 }
+
+SEARCH_NOTE = "Trusted base: the reference model (harness/gv/src/model.rs: BFS distances, reachability, shortest cycle, Tarjan, exact DFS pre/post-order deciders), the observation function, rustc. Exhaustive inside the stated graph bounds (all multigraphs as insertion sequences), sampled beyond; says nothing about graphs no workload builds."
+def _s(pid, text, ref, tech):
+    META[pid] = {"level_text": text, "design_ref": ref, "level_note": SEARCH_NOTE, "technique": tech}
+
+_s("C04", "Exploration by runtime monitoring: bfs target searches of the real code are executed on every multigraph in the bound (3 nodes/<=4 edges quick; 3/<=5 and 4/<=4 thorough) x every root/target x every reject subset and judged against model BFS distances computed on the implementation's own observation of the graph; random graphs to 40 nodes beyond.", "DESIGN.md §5 C04", "reference-model monitor (model BFS on observed graph) over exhaustively enumerated small multigraphs + seeded random graphs")
+_s("C05", "Exploration by runtime monitoring: as C04 for dfs, with simple-path validity instead of minimality.", "DESIGN.md §5 C05", "reference-model monitor (reachability + path validity) over enumerated + random graphs")
+_s("C06", "Exploration by runtime monitoring: the for_each/filter call log of every pfs run is checked online against the expansion-order rule, target searches against model reachability, and the node comparison operators against value comparison on a (key,value) grid; all value assignments from {0,1,2}^n on small graphs.", "DESIGN.md §5 C06", "trace monitor over the closure call log + reference-model monitor + comparison table")
+_s("C07", "Exploration by runtime monitoring: per-edge call counters of for_each versus model reachability for all traversal kinds, and rejected-set intersection on every kind of result for filtered searches.", "DESIGN.md §5 C07", "event-count monitor (exactly-once per reachable edge) + exclusion monitor on results")
+_s("C08", "Exploration by differential runtime monitoring: two live instances, G and its list-wise reverse, are searched with transposed resp. plain configurations and must agree exactly in result and closure-call sequence; orientation of every reported edge is checked against the stored edges.", "DESIGN.md §5 C08", "differential monitor on two live instances (transposed on G vs plain on reversed G) + orientation check")
+_s("C09", "Exploration by runtime monitoring: search_cycle results of bfs/dfs/pfs on all four flavours against the model's shortest closed walk through the root in the accepted (half-)edge graph, with simplicity and minimality checks on directed results.", "DESIGN.md §5 C09", "reference-model monitor (shortest cycle through root) + cycle validity checks")
+_s("C10", "Exploration by runtime monitoring: orderings are decided by exact 'some DFS produces this' procedures (preorder: linear stack simulation; postorder: back-tracking with budget, necessary conditions beyond and counted separately) on the observed graph.", "DESIGN.md §5 C10", "exact DFS-order decision procedures as runtime oracles over enumerated + random graphs")
+_s("C11", "Exploration by runtime monitoring: scc() of the real containers against Tarjan on the observed graph for every digraph on <=3 (quick) / <=4 (thorough) nodes, several container instances (hash orders) and insertion orders each, plus non-simple-component family and random graphs.", "DESIGN.md §5 C11", "reference-model monitor (Tarjan partition) across container instances / iteration orders")
